@@ -197,7 +197,7 @@ func (re *refExec) execSet(n *Node, objType string, sels []*Sel, path pathT) map
 		if fk := re.faults[ck]; fk != NoFault && fk != FaultNth && fk != FaultBadLeaf {
 			out[g.key] = nil
 			re.ex.ErrPaths = append(re.ex.ErrPaths, PathString(p))
-			if fk == FaultGroup || fk == FaultWrapped {
+			if fk == FaultGroup || fk == FaultWrapped || fk == FaultTwin {
 				re.ex.ErrPaths = append(re.ex.ErrPaths, PathString(p))
 			}
 			continue
